@@ -9,8 +9,11 @@ package ratelimit
 // never evicts the key it is writing, and at quiescence Len() equals the
 // number of reachable entries. Threads call the real Get / Cleanup / Len; the
 // store's RWMutex and the entries' atomics are the scheduling points.
-// (This store is one map behind one mutex by design; the property's
-// "no global lock" clause is exercised on the segment tables in unit conc.)
+// "Writers never wait on a global lock" is judged here too: with ample capacity
+// (no eviction to coordinate) two threads inserting DIFFERENT keys must not take
+// one and the same exclusive lock. This store is one map behind one RWMutex, so
+// they do — reported as a finding (listed in KNOWN_FINDINGS.json: the repair is a
+// sharded store, not a small patch); the segment tables pass the same test in unit conc.
 
 import (
 	"encoding/json"
@@ -23,6 +26,7 @@ import (
 
 	"github.com/semihalev/sdns/internal/verifshim/sched"
 	"github.com/semihalev/sdns/internal/verifshim/vkit"
+	"github.com/semihalev/sdns/internal/verifshim/vsync"
 )
 
 type vkLSOp struct {
@@ -70,6 +74,10 @@ type vkLSWorld struct {
 	mu    sync.Mutex
 	hist  []vkLSCall
 	names map[*limiter]string
+	// curKey[t]: the key thread t is inserting / fetching right now (-1 = none); lockKeys: keys whose Get took
+	// the store's exclusive lock in this execution
+	curKey   []int
+	lockKeys map[int]bool
 }
 
 func (w *vkLSWorld) name(l *limiter) string {
@@ -90,7 +98,13 @@ func (w *vkLSWorld) do(t int, o vkLSOp) {
 	c := vkLSCall{T: t, Op: o, Call: w.clock()}
 	switch o.Op {
 	case "get":
+		if t < len(w.curKey) {
+			w.curKey[t] = o.K
+		}
 		c.Got = w.s.Get(vkLSKeys[o.K])
+		if t < len(w.curKey) {
+			w.curKey[t] = -1
+		}
 	case "cleanup-all":
 		w.s.Cleanup(-time.Hour) // cutoff in the future: every entry is older
 	case "cleanup-none":
@@ -271,6 +285,19 @@ func vkLSScenarioFn(sc vkLSScenario) sched.Scenario {
 	return func(r *sched.Run) func() (string, string) {
 		w, init := vkLSBuild(sc)
 		w.clock = r.StepCount
+		w.curKey = make([]int, len(sc.Threads))
+		for i := range w.curKey {
+			w.curKey[i] = -1
+		}
+		w.lockKeys = map[int]bool{}
+		vsync.LockMonitor = func(ev string, obj any) {
+			if ev != "lock" || obj != any(&w.s.mu) {
+				return
+			}
+			if t := r.Current().ID; t >= 0 && t < len(w.curKey) && w.curKey[t] >= 0 {
+				w.lockKeys[w.curKey[t]] = true
+			}
+		}
 		r.Monitor = func() string {
 			if n := len(w.s.limiters); n > sc.Cap {
 				return fmt.Sprintf("occupancy %d exceeds the capacity %d", n, sc.Cap)
@@ -300,6 +327,14 @@ func vkLSScenarioFn(sc vkLSScenario) sched.Scenario {
 					return fmt.Sprintf("keys k%d and k%d alias one limiter", o, k), outcome
 				}
 				seen[l] = k
+			}
+			if sc.Cap >= 100 && len(w.lockKeys) > 1 {
+				var ks []string
+				for k := range w.lockKeys {
+					ks = append(ks, fmt.Sprintf("k%d", k))
+				}
+				sort.Strings(ks)
+				return fmt.Sprintf("writers inserting different keys take one store-wide exclusive lock (global lock): keys %v, capacity %d, %d entries — each waits for the other although they touch different keys", ks, sc.Cap, len(final)), outcome
 			}
 			if !w.linearizable(init, final) {
 				return fmt.Sprintf("history is not explainable by a map with capacity %d: start {%s} final {%s}: %s", sc.Cap, w.key(init), w.key(final), w.histStr()), outcome
